@@ -32,6 +32,7 @@
         rsp := t.server.invoke(…)    `start c i` (Invoke entered) … `fin c i` (Invoke returned)
         if cPacketType == TARSONEWAY || len(rsp) == 0 { return }   `skip c i` (requests sent with `sendNR`)
         conn.Write(rsp)              `write c i`   (fails when the server has closed the connection)
+    (variant `decEarly`: `numInvoke--` directly after invoke: `finEarly c i`, then `lateWrite c i`)
   * pool (abstraction of gpool that keeps what matters here): the dispatcher takes one job out of the
     queue (`pTake`), waits for an idle worker and hands the job over (part of `start`); `Release`
     (`relCall`) is accepted by the dispatcher only between two jobs (`pStop`), after which the
@@ -85,6 +86,9 @@ structure Cfg where
   return taken for one-way requests and empty responses (the code); `false`: it is the closure's last
   statement and the early return skips it (the variant of `C12_oneway_leak_counterexample`) -/
   decDeferred : Bool := true
+  /-- `true`: the handler decrements `numInvoke` right after `invoke` returned, BEFORE `conn.Write(rsp)`
+  (the variant of `C12_early_decrement_counterexample`); `false` (the code): after the write -/
+  decEarly : Bool := false
 deriving DecidableEq, Repr
 
 /-- state of the handler closure of one dispatched request -/
@@ -95,27 +99,35 @@ inductive HSt
   | finished            -- Invoke returned, `conn.Write(rsp)` not yet executed
   | wrote (ok : Bool)   -- `conn.Write(rsp)` executed; ok = the connection was still open
   | done (ok : Bool)    -- deferred `numInvoke--` executed
+  | writePending        -- only with `decEarly = true`: `numInvoke--` executed, `conn.Write(rsp)` still to come
+  | doneLate (ok : Bool) -- only with `decEarly = true`: that late write executed; ok = the connection was still open
   | leaked              -- only with `decDeferred = false`: the handler returned early (one-way request /
                         -- empty response) past its `numInvoke--`: it is over, the counter stays up
 deriving DecidableEq, Hashable, Repr
 
+/-- the handler's `numInvoke--` has been executed -/
 def HSt.isDone : HSt → Bool
-  | .done _ => true
+  | .done _ | .writePending | .doneLate _ => true
   | _ => false
 
 /-- occupies a worker: from the start of the job body to its end -/
 def HSt.busy : HSt → Bool
-  | .handed | .running | .finished | .wrote _ => true
+  | .handed | .running | .finished | .wrote _ | .writePending => true
   | _ => false
 
 /-- no failed write so far -/
 def HSt.ok : HSt → Bool
-  | .wrote false | .done false => false
+  | .wrote false | .done false | .doneLate false => false
   | _ => true
 
 /-- the response reached the socket -/
 def HSt.answered : HSt → Bool
-  | .wrote true | .done true => true
+  | .wrote true | .done true | .doneLate true => true
+  | _ => false
+
+/-- states that only the early-decrement variant has -/
+def HSt.early : HSt → Bool
+  | .writePending | .doneLate _ => true
   | _ => false
 
 structure Req where
@@ -239,6 +251,8 @@ inductive Action
   | pGive
   | start (c : Cid) (i : Nat)
   | fin (c : Cid) (i : Nat)
+  | finEarly (c : Cid) (i : Nat)   -- `decEarly`: Invoke returned and `numInvoke--` at once, the write is still to come
+  | lateWrite (c : Cid) (i : Nat)  -- `decEarly`: the write (or the early return) after the decrement
   | write (c : Cid) (i : Nat)
   | skip (c : Cid) (i : Nat)     -- the early return `if cPacketType == TARSONEWAY || len(rsp) == 0 { return }`
   | dec (c : Cid) (i : Nat)
@@ -332,6 +346,25 @@ def cHand (i : Nat) (k : Conn) : Option Conn := cSetSt i .queued .handed k
 /-- pool: the worker calls `job()` -/
 def cStartP (i : Nat) (k : Conn) : Option Conn := cSetSt i .handed .running k
 def cFin (i : Nat) (k : Conn) : Option Conn := cSetSt i .running .finished k
+
+/-- early-decrement variant: `rsp := invoke(…); atomic.AddInt32(&connSt.numInvoke, -1)` -/
+def cFinEarly (i : Nat) (k : Conn) : Option Conn :=
+  match k.reqs[i]? with
+  | some q =>
+    match q.st with
+    | .running => some { k with reqs := k.reqs.set i { q with st := .writePending }, numInvoke := k.numInvoke - 1 }
+    | _ => none
+  | none => none
+
+/-- early-decrement variant: `conn.Write(rsp)` (or the early return) after the decrement -/
+def cLateWrite (i : Nat) (k : Conn) : Option Conn :=
+  match k.reqs[i]? with
+  | some q =>
+    match q.st with
+    | .writePending =>
+      some { k with reqs := k.reqs.set i { q with st := .doneLate (q.noReply || !k.srvClosed) } }
+    | _ => none
+  | none => none
 /-- `conn.Write(rsp)`: an error (only logged) when the server has closed the connection -/
 def cWrite (i : Nat) (k : Conn) : Option Conn :=
   match k.reqs[i]? with
@@ -460,7 +493,9 @@ def step (cfg : Cfg) (s : State) : Action → Option State
       if busy s < n then (updConn s c (cHand i)).map fun s' => { s' with held := none } else none
     | _, _ => none
   | .start c i => if poolOn cfg then updConn s c (cStartP i) else updConn s c (cStart i)
-  | .fin c i => updConn s c (cFin i)
+  | .fin c i => if cfg.decEarly then none else updConn s c (cFin i)
+  | .finEarly c i => if cfg.decEarly then updConn s c (cFinEarly i) else none
+  | .lateWrite c i => updConn s c (cLateWrite i)
   | .write c i => updConn s c (cWrite i)
   | .skip c i => updConn s c (cSkip cfg.decDeferred i)
   | .dec c i => updConn s c (cDec i)
@@ -575,6 +610,7 @@ def treeCfg (pool : Option (Nat × Nat)) : Cfg :=
   { pool := pool,
     releaseAfterDrain := decide (Consts.srvHandleWaitsBeforeRelease ≥ 1),
     ci := if Consts.srvCloseIdlesCloses ≥ 1 then .asFound else .kickOnly,
-    decDeferred := decide (Consts.srvInvokeDecDeferred ≥ 1) }
+    decDeferred := decide (Consts.srvInvokeDecDeferred ≥ 1),
+    decEarly := decide (Consts.srvInvokeDecDeferred = 0 ∧ Consts.srvInvokeDecBeforeWrite ≥ 1) }
 
 end Tars.ServerConn
